@@ -93,6 +93,11 @@ def cases(seed=0, thorough=False):
             lambda e: {A}  # ) lambda
         )
         """.format(A=body(a, "e")), ["lambda e: {A}".format(A=body(a, "e"))], True, "D6 strings and comments with code-like content")
+    # ---- D1 with a body part of which the compiler folds away (no instruction is executed there)
+    for bt in ("1 or {A}", "{A} if -True else {A} + 1", "({A}, 2)[0] if 0 else {A}"):
+        a = nb()
+        b_ = bt.format(A=body(a, "e"))
+        add("r = ds.Select(lambda e: %s)\nq = 1" % b_, ["lambda e: %s" % b_], True, "D1 one lambda per call, part of the body is folded away by the compiler")
     # ---- D1 with short names elsewhere on the logical line (letters that occur in the word lambda)
     for tail_t in (".Select(m)", "; a = 1", " if d else None", ", b, l = 1, 2", ".Where(am)"):
         a = nb()
